@@ -4,5 +4,5 @@
 for f in /verif/refactors/${1:-*}.diff; do
   n=$(basename $f .diff)
   out=$(/verif/tools/try_seed.sh $f all 2>&1 | grep -v "^SUMMARY")
-  if [ -z "$out" ]; then echo "ok    $n"; elif echo "$out" | grep -q "patch does not apply"; then echo "skip  $n (no longer applies to the current tree)"; else echo "ALARM $n"; echo "$out" | cut -c1-300 | sed 's/^/      /' | head -8; fi
+  if [ -z "$out" ]; then echo "ok    $n"; elif echo "$out" | grep -q "patch does not apply"; then echo "skip  $n (no longer applies to the current tree)"; elif echo "$out" | grep -q "type-check/load errors"; then echo "skip  $n (applies but no longer builds on the current tree)"; else echo "ALARM $n"; echo "$out" | cut -c1-300 | sed 's/^/      /' | head -8; fi
 done
